@@ -2,6 +2,7 @@ package e2
 
 import (
 	"encoding/binary"
+	"runtime/debug"
 	"encoding/hex"
 	"fmt"
 	"os"
@@ -220,6 +221,12 @@ func execC07(t *trace.Trace, dir string) *harness.RunResult {
 		alloc := ms.TotalAlloc - before
 		disk.Install(nil)
 		disk.InstallPool(nil)
+		if alloc > 32<<20 {
+			// give large garbage back before the next altered file, so that memory
+			// used by earlier runs cannot push a later one over the process limit
+			d = shrinkDump(d)
+			debug.FreeOSMemory()
+		}
 		res.SubRuns++
 		res.Fired[f.Kind]++
 		res.IOSteps += sim.Step
@@ -288,4 +295,12 @@ func Materialize(t *trace.Trace, dir, out string) error {
 		}
 	}
 	return os.WriteFile(out, b, 0o644)
+}
+
+// shrinkDump drops the bulk values of a dump (only panics are looked at afterwards).
+func shrinkDump(d *e1.Dump) *e1.Dump {
+	for i := range d.Objs {
+		d.Objs[i].F64, d.Objs[i].Strs, d.Objs[i].Comp = nil, nil, nil
+	}
+	return d
 }
